@@ -569,7 +569,20 @@ func (w *c18World) runCaller(req *c18Req, sendRes func(ctx context.Context) erro
 				pcancel()
 			}()
 		}
+		returned := make(chan struct{})
+		go func() {
+			// safety net: SendWithReply has no bound of its own; never let the whole run hang
+			select {
+			case <-returned:
+			case <-time.After(4 * time.Second):
+				req.mu.Lock()
+				req.ReadTO++
+				req.mu.Unlock()
+				pcancel()
+			}
+		}()
 		err := sendRes(parent)
+		close(returned)
 		w.rt.Stamp("c18.caller.cancel", req.opid) // SendWithReply's deferred cancel has run by now
 		if err != nil {
 			req.SendErr = err.Error()
@@ -1162,6 +1175,9 @@ func cmdC18(args []string) error {
 		for _, r := range sc.Reqs {
 			if !r.Done && r.Op != 0 {
 				leaked++
+			}
+			if r.ReadTO > 0 {
+				leaked += 3 // replies that must come do not come: stop early as well
 			}
 		}
 		all = append(all, sc)
